@@ -1024,7 +1024,17 @@ func (c *StructConverter) To(obj Object) (interface{}, error) {
 						if err != nil {
 							return nil, err
 						}
-						f.Set(reflect.ValueOf(attrValue))
+						av := reflect.ValueOf(attrValue)
+						switch {
+						case !av.IsValid():
+							f.SetZero()
+						case f.Kind() == reflect.Struct && av.Kind() == reflect.Ptr && !av.IsNil() && av.Type().Elem() == f.Type():
+							f.Set(av.Elem())
+						case av.Type().AssignableTo(f.Type()):
+							f.Set(av)
+						default:
+							return nil, errz.TypeErrorf("type error: cannot use %s as %s for field %s", av.Type(), f.Type(), k)
+						}
 					}
 				}
 			}
